@@ -198,6 +198,18 @@ func (x *Exec) step(st *State, fi int, instr ssa.Instruction, from *ssa.BasicBlo
 		mt := in.Map.Type().Underlying().(*types.Map)
 		x.nilCheck(st, m.T, exprText(in.Map)+" (map write)", in.Pos())
 		x.mapStore(st, m.T, mt, k.T, x.valueTerm(v))
+		// ghost anchor "mapupdate#k" (k-th map store of the function, block order)
+		n := 0
+		for _, b := range fr.fn.Blocks {
+			for _, i := range b.Instrs {
+				if _, ok := i.(*ssa.MapUpdate); ok {
+					n++
+					if i == instr {
+						x.ghostAtX(st, fi, fmt.Sprintf("mapupdate#%d", n), "", nil, map[string]Value{"key": k, "value": v})
+					}
+				}
+			}
+		}
 	case *ssa.Lookup:
 		m, k := x.val(st, fi, in.X), x.val(st, fi, in.Index)
 		mt, ok := in.X.Type().Underlying().(*types.Map)
